@@ -252,6 +252,40 @@ func diffSets(want, got []string) (miss, extra []string) {
 // several branch edges, the disjunction of the joining edges.
 func (c *Ctx) reachConds(b *ssa.BasicBlock) []string {
 	out := c.guardStrs(b)
+	if len(b.Preds) == 1 && !useDomGuards && branchesOnFlag(b.Preds[0]) {
+		// one incoming edge but several ways of getting there (the branch before it tested a flag that stands for a
+		// disjunction): the alternatives themselves
+		if _, residual := pathGuards(b); len(residual) > 1 {
+			var alts []string
+			for _, set := range residual {
+				var lits []string
+				for _, g := range set {
+					lits = append(lits, c.guardStr(g))
+				}
+				sort.Strings(lits)
+				alts = append(alts, "("+strings.Join(uniq(lits), " & ")+")")
+			}
+			sort.Strings(alts)
+			alts = uniq(alts)
+			trivial := false
+			set := map[string]bool{}
+			for _, a := range alts {
+				set[a] = true
+				if a == "()" {
+					trivial = true
+				}
+			}
+			for _, a := range alts {
+				if !strings.Contains(a, " & ") && len(a) > 2 && set["("+negGuard(a[1:len(a)-1])+")"] {
+					trivial = true
+				}
+			}
+			if !trivial && len(alts) > 1 {
+				out = append(out, "OR{"+strings.Join(alts, " | ")+"}")
+			}
+		}
+		return out
+	}
 	if len(b.Preds) > 1 {
 		base := map[string]bool{}
 		for _, g := range out {
@@ -744,4 +778,14 @@ func mayWriteMap(c *Ctx, g *ssa.Function, mk string, depth int) bool {
 	}
 	mayWriteMapMemo[key] = res
 	return res
+}
+
+
+// branchesOnFlag: the block ends in a branch on one of its own boolean phis (`a && b` evaluated as a value, a flag
+// set on several paths).
+func branchesOnFlag(p *ssa.BasicBlock) bool {
+	if _, ok := boolPhiBranch(p); ok {
+		return true
+	}
+	return isThreaded(p)
 }
